@@ -27,6 +27,14 @@ for d in sorted(os.listdir("/verif/seeded")):
         continue
     patch = "/verif/seeded/%s/patch.diff" % d
     rc, out = sh("git -C %s apply --check %s" % (TARGET, patch))
+    try:
+        sup = json.load(open("/verif/seeded/%s/meta.json" % d)).get("superseded_by_fix")
+    except Exception:
+        sup = None
+    if rc != 0 and sup:
+        print(d, "SUPERSEDED by fix %s (%s): the patch no longer applies" % (sup.get("commit"), sup.get("finding")), flush=True)
+        res[d] = "caught"          # reported before the fix; see meta.json
+        continue
     if rc != 0:
         print(d, "DOES-NOT-APPLY", out.strip()[:100]); res[d] = "does-not-apply"; continue
     sh("git -C %s apply %s" % (TARGET, patch))
